@@ -24,6 +24,20 @@ def make_obs(ctx):
                           group='in-range:%s' % rp, bounds=b))
         obs.append(Ob('trans:ymcw:%s' % tag, H, 'h_trans', dict(d, REP=REPS['ymcw']), units=UNITS,
                       group='trans:ymcw', bounds=b))
+    # date-times and times (lib/dt-core.c, lib/time-core.c)
+    DT_UNITS = ['lib/date-core.c', 'lib/time-core.c', 'lib/strops.c', 'lib/token.c', 'lib/leaps.c', 'lib/dt-locale.c']
+    H2 = 'C08_dtcmp.c'
+    dwins = [(2000, 2000), (1900, 1900), (4095, 4095)] if ctx.tier == 'quick' else core.year_windows_full(10)
+    for (lo, hi) in dwins:
+        d = {'YLO': lo, 'YHI': hi}
+        b = {'pairs': 'every pair of seconds of %d..%d' % (lo, hi)}
+        for rp in ('ymd', 'ymcw', 'ywd', 'daisy'):
+            obs.append(Ob('dtcmp:%s:%d-%d' % (rp, lo, hi), H2, 'h_dtcmp', dict(d, REP=REPS[rp]), units=DT_UNITS,
+                          group='dtcmp:%s' % rp, bounds=b, remove_bodies=core.prune_cals([rp])))
+        obs.append(Ob('dt-in-range:%d-%d' % (lo, hi), H2, 'h_dt_in_range', d, units=DT_UNITS,
+                      group='dt-in-range', bounds=b, remove_bodies=core.prune_cals(['daisy'])))
+    obs.append(Ob('tcmp', H2, 'h_tcmp', {}, units=DT_UNITS, group='tcmp',
+                  bounds={'pairs': 'every pair of times of day with nanoseconds'}))
     return obs
 
 
